@@ -97,13 +97,9 @@ def selftest(ctx):
     """Sanity of the oracle: every seeded fault of the specification must make TLC
     find a violation; a corrupted real record must be rejected by the trace spec."""
     ok = True
-    for module, bug, consts in [
-            ("MC_BuildNames", "MatchFileNoAndroid", dict(MaxSeg=2, Emit="FALSE")),
-            ("MC_BuildExpr", "NegatedMalformedTrue", dict(N=3, Emit="FALSE")),
-            ("MC_BuildExpr", "NoAndroidInTags", dict(N=3, Emit="FALSE")),
-            ("MC_BuildBlock", "BlockNeedsNoBlank", dict(L=2, Alpha=alpha(FULL), Emit="FALSE"))]:
-        res = tlc(ctx, SPECDIR, module + ".tla", "Bug_%s.cfg" % bug, cfg_text=cfg(module, consts, bug),
-                  workers=4, timeout=600, expect_violation=True)
+    for module, bug in [("MC_BuildNames", "MatchFileNoAndroid"), ("MC_BuildExpr", "NegatedMalformedTrue"),
+                        ("MC_BuildExpr", "NoAndroidInTags"), ("MC_BuildBlock", "BlockNeedsNoBlank")]:
+        res = tlc(ctx, SPECDIR, module + ".tla", "Bug_%s.cfg" % bug, workers=4, timeout=600, expect_violation=True)
         found = res.violation is not None and "Invariant" in res.violation
         log("selftest %s/%s: %s" % (module, bug, "violation found" if found else "NOT FOUND"))
         ok = ok and found
@@ -116,8 +112,8 @@ def selftest(ctx):
     with open(trace, "w") as fh:
         for r in recs:
             fh.write(json.dumps(r) + "\n")
-    res = tlc(ctx, SPECDIR, "Trace_BuildTags.tla", "Trace_BuildTags.cfg", files=[trace], workers=4, timeout=600,
-              extra=["-continue"], expect_violation=True)
+    res = tlc(ctx, SPECDIR, "Trace_BuildTags.tla", "Trace_BuildTags.cfg", files=[trace], workers=4, timeout=600)
+    require_tlc_ok(res, "trace validation run")
     bad, _ = bad_records(res)
     found = (k + 1) in bad
     log("selftest corrupted record %d: %s" % (k + 1, "rejected" if found else "NOT REJECTED"))
@@ -203,10 +199,9 @@ def check(ctx):
     samples.extend(r2["samples"][:4])
     evals += r2["evaluations"]
     nontriv += r2["distinct_nontrivial"]
-    res = tlc(ctx, SPECDIR, "Trace_BuildTags.tla", "Trace_BuildTags.cfg", files=[trace], workers=NCPU,
-              timeout=3000, extra=["-continue"], expect_violation=True)
-    ctx.tlc_states += res.distinct
-    ctx.tlc_transitions += max(res.generated - 1, 0)
+    res = tlc(ctx, SPECDIR, "Trace_BuildTags.tla", "Trace_BuildTags.cfg", files=[trace], workers=NCPU, timeout=3000)
+    # the Rec* invariants only print BAD lines and stay TRUE: anything else is a tool problem
+    require_tlc_ok(res, "trace validation run")
     if res.distinct != nrand:
         raise NoVerdict("trace validation visited %d of %d records\n%s" % (res.distinct, nrand, res.violation))
     log("[%5.1fs] %d random records validated by TLC" % (time.time() - ctx.t0, nrand))
@@ -237,8 +232,6 @@ def check(ctx):
                                    what="TLC rejects the record of the real %s = %s (go/build: %s; %s)" % (
                                        call, rec["got"], rec["ref"], ",".join(sorted(mine))),
                                    input=dict(text=text, tags=tags, bytes=rec["input"]), detail=rec))
-    elif not res.ok:
-        raise NoVerdict("trace validation failed without naming a record:\n%s" % res.violation)
     for idx in sorted(drifted)[:10]:
         rec, text, tags, call = describe(idx)
         drift.append(dict(kind="star-with-malformed-or-empty-line", what="%s = %s (not judged)" % (call, rec["got"])))
